@@ -105,14 +105,17 @@ def gen(typ, budget, scope, st, opts, shard=_all):
                         f = fa | fz | (fb - {bacc, bval})
                         yield ('fold', bacc, bval, a, z, body), 1 + ca + cz + cb, f, _complete(s4, 'i', f)
         if opts['agg'] and AGG in inscope:
-            agg_scope = ((ROW, 'i'),)
+            # table aggregation: the aggregated argument sees the row only; local aggregation over an array (StreamAgg /
+            # StreamAggScan): it sees the element and the enclosing variables (opts['agg_scope'])
+            agg_scope = opts.get('agg_scope') or ((ROW, 'i'),)
             for x, cx, fx, s1 in shard(gen('i', b1, agg_scope, st, opts)):
-                f = frozenset((AGG,))
+                f = frozenset((AGG,)) | (fx & inscope)
                 yield ('aggmax', x), 1 + cx, f, _complete(s1, 'i', f)
             for c, cc, fc, s1 in shard(gen('b', b1, agg_scope, st, opts)):
                 for r, cr, fr, s2 in gen('i', b1 - cc, scope, s1, opts):
                     if AGG in fr:
-                        yield ('aggfilter', c, r), 1 + cc + cr, fr, _complete(s2, 'i', fr)
+                        f = fr | (fc & inscope)
+                        yield ('aggfilter', c, r), 1 + cc + cr, f, _complete(s2, 'i', f)
     elif typ == 'b':
         for x, cx, fx, s1 in shard(gen('i', b1, scope, st, opts)):
             for y, cy, fy, s2 in gen('i', b1 - cx, scope, s1, opts):
@@ -253,8 +256,10 @@ def _term_type(t, done):
     k = t[0]
     if k == 'ref':
         return done[t[1]][0]
-    if k in ('lit', 'add', 'mul', 'len', 'fold', 'getf', 'var'):
+    if k in ('lit', 'add', 'mul', 'len', 'fold', 'getf', 'var', 'sagg', 'aggmax', 'aggfilter'):
         return 'i'
+    if k == 'sscan':
+        return 'a'
     if k == 'lt':
         return 'b'
     if k in ('mka', 'map', 'filter'):
@@ -284,6 +289,8 @@ def _prefix_state(skel):
             return {5: (t[1], t[2])}
         if k == 'let':
             return {5: (t[3],)}
+        if k == 'sscan':
+            return {3: (t[1],)}          # the element is visible in the body's value context too; for 'sagg' it is not
         return {}
 
     def w(t, scope):
@@ -334,6 +341,8 @@ def _prefix_state(skel):
             nb = max(nb, t[2] + 1)
         elif t[0] == 'let':
             nb = max(nb, t[3] + 1)
+        elif t[0] in ('sagg', 'sscan'):
+            nb = max(nb, t[1] + 1)
 
     maxbind(skel)
     # variables count as fresh nodes inside the hole whether or not the skeleton already used them (uniform sizes)
@@ -387,3 +396,121 @@ def nested_programs(size, skeleton_index=None, ops=('add', 'mul')):
             if not shared:
                 continue
             yield name, rt, _subst(skel, h), shared[0]
+
+
+# ---------------------------------------------------------------------------------------------------------------
+# local aggregation over an array inside nested binders: ('sagg', elt, arr, body) = arr.aggregate(lambda elt: body)
+# (StreamAgg), ('sscan', elt, arr, body) = arr._to_stream()._aggregate_scan(lambda elt: body).to_array() (StreamAggScan).
+# The hole is the aggregation BODY; the skeleton uses the whole aggregation twice (REFSA = back-reference to it).
+
+REFSA = ('refsa',)
+
+
+def _sa(e):
+    return ('sagg', e, _RA, HOLE)
+
+
+def _ss(e):
+    return ('sscan', e, _RA, HOLE)
+
+
+# (name, root type, skeleton, {binder id: depth rank}, element binder id)
+AGG_SKELETONS = [
+    ('agg-in-map', 'a', ('map', 0, _A, ('add', _sa(1), REFSA)), {0: 1}, 1),
+    ('agg-in-map-struct', 'a', ('map', 0, _A, ('getf', 'b', ('mks', _sa(1), REFSA))), {0: 1}, 1),
+    ('agg-in-map-in-map', 'a', ('map', 0, _A, ('len', ('map', 1, _RA, ('mul', _sa(2), REFSA)))), {0: 1, 1: 2}, 2),
+    ('agg-in-fold', 'i', ('fold', 0, 1, _A, ('lit', 2), ('add', _sa(2), REFSA)), {0: 1, 1: 1}, 2),
+    ('agg-in-let-in-map', 'a', ('map', 0, _A, ('let', 'i', 'i', 1, ('add', ('var', 0), ('lit', 2)), ('add', _sa(2), REFSA))),
+     {0: 1, 1: 2}, 2),
+    ('agg-in-if-in-map', 'a', ('map', 0, _A, ('if', 'i', ('lt', ('var', 0), ('lit', 2)), ('add', _sa(1), REFSA), ('var', 0))),
+     {0: 1}, 1),
+    ('aggscan-in-map', 'a', ('map', 0, _A, ('add', ('len', _ss(1)), ('len', REFSA))), {0: 1}, 1),
+    ('aggscan-in-map-in-map', 'a', ('map', 0, _A, ('len', ('map', 1, _RA, ('add', ('len', _ss(2)), ('len', REFSA))))),
+     {0: 1, 1: 2}, 2),
+    ('aggscan-in-fold', 'i', ('fold', 0, 1, _A, ('lit', 2), ('add', ('len', _ss(2)), ('len', REFSA))), {0: 1, 1: 1}, 2),
+]
+
+AGG_NEST_OPTS = dict(NEST_OPTS, structs=False, agg='local')
+
+
+def _completion_index(term, target):
+    out = []
+
+    def w(t):
+        if t[0] in ('ref', 'var') or t == REFSA:
+            return
+        for c in t[1:]:
+            if isinstance(c, tuple):
+                w(c)
+        out.append(t)
+
+    w(term)
+    for i, t in enumerate(out):
+        if t is target:
+            return i
+    raise AssertionError('node not found')
+
+
+def _find(t, kinds):
+    if t[0] in kinds:
+        return t
+    for c in t[1:]:
+        if isinstance(c, tuple) and c != REFSA:
+            r = _find(c, kinds)
+            if r is not None:
+                return r
+    return None
+
+
+def _value_context_vars(t, out):
+    """variables used outside aggregated arguments"""
+    if t[0] == 'var':
+        out.add(t[1])
+        return
+    if t[0] == 'aggmax':
+        return
+    cs = t[2:] if t[0] == 'aggfilter' else t[1:]
+    for c in cs:
+        if isinstance(c, tuple):
+            _value_context_vars(c, out)
+
+
+def _all_vars(t, out):
+    if t[0] == 'var':
+        out.add(t[1])
+    for c in t[1:]:
+        if isinstance(c, tuple):
+            _all_vars(c, out)
+
+
+def nested_agg_programs(size, skeleton_index=None, ops=('add', 'mul')):
+    """skeleton[hole := body] for every aggregation body of exactly `size` fresh nodes that aggregates and uses at least one
+    enclosing binder's variable in its value context (so that the aggregation as a whole depends on that binder).
+    Yields (name, root type, term, completion index of the shared aggregation node, 'value'|'value+argument')."""
+    for si, (name, rt, skel, ranks, elt) in enumerate(AGG_SKELETONS):
+        if skeleton_index is not None and si != skeleton_index:
+            continue
+        st0, scope = _prefix_state(skel)
+        outer = tuple(b for b in scope if b[0] != elt)
+        opts = dict(AGG_NEST_OPTS, ops=ops, agg_scope=outer + ((elt, 'i'),))
+        for h, cost, free, st1 in gen('i', size, scope + ((AGG, '-'),), st0, opts):
+            if cost != size or AGG not in free:
+                continue
+            vv = set()
+            _value_context_vars(h, vv)
+            if not (vv & set(ranks)):
+                continue
+            av = set()
+            _all_vars(h, av)
+            inside = bool((av - vv) & set(ranks)) or any(True for _ in ())
+            term = _subst(skel, h)
+            sa = _find(term, ('sagg', 'sscan'))
+            k = _completion_index(term, sa)
+            term = _subst_refsa(term, k)
+            yield name, rt, term, k, ranks, elt
+
+
+def _subst_refsa(t, k):
+    if t == REFSA:
+        return ('ref', k)
+    return tuple(_subst_refsa(c, k) if isinstance(c, tuple) else c for c in t)
